@@ -25,7 +25,10 @@ ASCII_LABELS = ["www", "example", "com", "org", "net", "a", "b", "ns1", "mail", 
                 "l" * 63, "m" * 62, "q" * 32]
 ODD_ASCII = ["a b", "a@b", "a\\b", "a$", "(x)", "a,b", "a;b", "a\"b", "~", "a\tb", "a=b", "a/b", "a:b", "%", "!"]
 
-TYPES_COMMON = [1, 2, 5, 6, 12, 15, 16, 28, 33, 35, 41, 43, 46, 47, 48, 50, 64, 65, 99, 255, 256, 257, 10, 13, 17, 39]
+TYPES_COMMON = [1, 2, 5, 6, 12, 15, 16, 28, 33, 35, 41, 43, 46, 47, 48, 50, 64, 65, 99, 255, 256, 257, 10, 13, 17, 39, 24, 30, 14, 18, 21, 26]
+# octets that precede the first domain name in the RDATA of the types mitmproxy decompresses by layout (an *input* property:
+# RFC 1035 / 1183 / 2163 / 2535 / 2782 wire formats), used to build RDATA whose name field is not terminated inside the record
+NAME_PREFIX_LEN = {2: 0, 3: 0, 4: 0, 5: 0, 7: 0, 8: 0, 9: 0, 12: 0, 6: 0, 14: 0, 17: 0, 15: 2, 18: 2, 21: 2, 26: 2, 33: 6, 24: 18, 30: 0}
 # mitmproxy.net.dns.domain_names.record_data_can_have_compression (type numbers; an *input* property for classifiers)
 MITM_COMPRESSIBLE = frozenset({5, 13, 7, 3, 4, 8, 14, 9, 15, 2, 12, 6, 16, 17, 18, 21, 24, 26, 30, 35, 33})
 CLASSES = [1, 1, 1, 3, 4, 254, 255, 0, 4096, 65535]
@@ -142,6 +145,39 @@ def gen_rdata(r, rtype):
     if any(b >= 0xC0 for b in d):
         feats.add("rdata-has-c0")
     return d, feats
+
+
+def overrun_rdata(r, rtype):
+    """RDATA of a name-bearing type whose (first) name is a run of labels WITHOUT terminator, so that a decoder walking the
+    name leaves the record; every octet is < 0xC0 (nothing in it looks like a compression pointer)."""
+    prefix = bytes(b & 0x7F for b in r.randbytes(NAME_PREFIX_LEN[rtype]))
+    labels = [r.choice([b"www", b"ns1", b"a", b"example", b"mail"]) for _ in range(r.choice([1, 1, 2, 3]))]
+    return prefix + b"".join(bytes([len(x)]) + x for x in labels)
+
+
+def gen_overrun_message(r):
+    """Well-formed message (mitmproxy model) in which a record of a layout type with an unterminated RDATA name is FOLLOWED by
+    further records with plain owner names -- the bytes a decoder would walk into. -> (fields, features)"""
+    fields, feats = gen_wellformed(r)
+    feats = {f for f in feats if not f.startswith("rdata-")} | {"rdata-name-overrun"}
+    plain = lambda: ".".join(r.choice(["www", "example", "com", "ns1", "a", "mail", "org"]) for _ in range(r.randint(1, 4)))  # noqa: E731
+    sec = []
+    for _ in range(r.choice([1, 1, 2])):
+        t = r.choice([24, 30, 24, 30, r.choice(sorted(NAME_PREFIX_LEN))])
+        sec.append({"name": plain(), "wire": None, "type": t, "class": 1, "ttl": r.choice(TTLS), "data": overrun_rdata(r, t)})
+        feats.add("overrun-sig-nxt" if t in (24, 30) else "overrun-other")
+        for _ in range(r.choice([1, 1, 2, 3])):
+            t2 = r.choice([1, 28, 16, 5, 2, 24, 30])
+            d2 = {1: b"\x0a\x00\x00\x01", 28: bytes(16), 16: b"\x05hello", 5: R.name_wire([b"www", b"example"]), 2: R.name_wire([b"ns1"])}.get(t2) or overrun_rdata(r, t2)
+            sec.append({"name": plain(), "wire": None, "type": t2, "class": 1, "ttl": 60, "data": d2})
+    where = r.randrange(3)
+    fields["sections"][where] = sec
+    for i in range(3):
+        if i != where:
+            # keep the rest free of pointer-looking octets in scanned types so that a difference is attributable
+            fields["sections"][i] = [x for x in fields["sections"][i] if not (x["type"] in MITM_COMPRESSIBLE and any(b >= 0xC0 for b in x["data"]))]
+    feats.add("type-compressible")
+    return fields, feats
 
 
 def gen_wellformed(r):
